@@ -3,6 +3,7 @@ CONSTANTS
   Denoms = {"eth"}
   Mods <- Mods0
   AddrMode = "simple"
+  Stock = FALSE
   MaxTx = 1
   Fuel = 5
   Level = 2
